@@ -296,6 +296,7 @@ func compareFraming(lib []*diam.AVP, ref []refTree, path string) string {
 
 func TestC04(t *testing.T) {
 	rec := ev.Open(t, "C04")
+	refcodecSelfCheck(t)
 	defer rec.Close()
 	ctxs := []*lib.Ctx{genCtx(t), defCtx(t)}
 	opts := map[string]*rawOpts{}
